@@ -147,7 +147,7 @@ def run(chk: Check, replay=None):
     so = str(engines.build_native())
     fjm_run = engines.setup(so_path=so)
     chk.assumptions += ["StlSem.tla is a transcription of the documentation lines of the bit macros (bit.neg is taken as negation: its doc line repeats dec's)",
-                        "operands of one call are distinct variables; bit vectors of 70 bits, sizes up to 64"]
+                        "operands of one call are distinct variables, except in the blocks named with [..] (bit.xor_zero[dst=src], bit.sub[dst=src]: KF-9); bit vectors of 70 bits, sizes up to 64"]
     if quick:
         run_width(chk, fjm_run, 64, [1, 2, 4, 8], 400, 4, 6000, rng)
         run_width(chk, fjm_run, 16, [3, 5], 200, 4, 1200, rng)
